@@ -68,6 +68,7 @@ func (o tcpOpt) TCPClientApply(cfg *tcpclient.Config) { o(cfg) }
 
 type pair struct {
 	post  func(ctx context.Context, path string, body []byte) (*pool.Message, error)
+	write func(ctx context.Context, path string, body []byte, nr byte) error // one-way write of a POST with No-Response = nr (0: without)
 	get   func(ctx context.Context, path string) (*pool.Message, error)
 	close func()
 }
@@ -129,6 +130,18 @@ func udpPair(szxA, szxB int, lg *applog, drop int) pair {
 	return pair{
 		post: func(ctx context.Context, path string, body []byte) (*pool.Message, error) {
 			return a.Post(ctx, path, message.TextPlain, bytes.NewReader(body))
+		},
+		write: func(ctx context.Context, path string, body []byte, nr byte) error {
+			var opts []message.Option
+			if nr != 0 {
+				opts = append(opts, message.Option{ID: message.NoResponse, Value: []byte{nr}})
+			}
+			req, err := a.NewPostRequest(ctx, path, message.TextPlain, bytes.NewReader(body), opts...)
+			if err != nil {
+				return err
+			}
+			defer a.ReleaseMessage(req)
+			return a.WriteMessage(req)
 		},
 		get:   func(ctx context.Context, path string) (*pool.Message, error) { return a.Get(ctx, path) },
 		close: func() { _ = a.Close(); _ = b.Close(); close(done) },
@@ -209,6 +222,18 @@ func tcpPair(szxA, szxB int, maxA, maxB uint32, lg *applog) (pair, error) {
 		post: func(ctx context.Context, path string, body []byte) (*pool.Message, error) {
 			return a.Post(ctx, path, message.TextPlain, bytes.NewReader(body))
 		},
+		write: func(ctx context.Context, path string, body []byte, nr byte) error {
+			var opts []message.Option
+			if nr != 0 {
+				opts = append(opts, message.Option{ID: message.NoResponse, Value: []byte{nr}})
+			}
+			req, err := a.NewPostRequest(ctx, path, message.TextPlain, bytes.NewReader(body), opts...)
+			if err != nil {
+				return err
+			}
+			defer a.ReleaseMessage(req)
+			return a.WriteMessage(req)
+		},
 		get: func(ctx context.Context, path string) (*pool.Message, error) { return a.Get(ctx, path) },
 		close: func() {
 			_ = a.Close()
@@ -226,6 +251,7 @@ type connCase struct {
 	method     string
 	qlen, rlen int
 	drop       int
+	nr         byte // method "write": value of the No-Response option of the request (0: none)
 }
 
 func runConnCase(t *testing.T, c connCase, seed int) string {
@@ -261,6 +287,9 @@ func runConnCase(t *testing.T, c connCase, seed int) string {
 			}()
 			if c.method == "get" {
 				resp, err = p.get(ctx, path)
+			} else if c.method == "write" {
+				err = p.write(ctx, path, qbody, c.nr)
+				time.Sleep(30 * time.Second) // the remaining blocks follow the peer's 2.31s
 			} else {
 				resp, err = p.post(ctx, path, qbody)
 			}
@@ -285,7 +314,17 @@ func runConnCase(t *testing.T, c connCase, seed int) string {
 			if c.method != "get" && len(reqs) > 1 && !strings.HasPrefix(result, "violates") {
 				result = fmt.Sprintf("violates-handler-called-%d-times", len(reqs))
 			}
-			if err == nil && !strings.HasPrefix(result, "violates") {
+			if c.method == "write" {
+				switch {
+				case strings.HasPrefix(result, "violates"):
+				case err != nil:
+					result = "err"
+				case len(reqs) == 0:
+					result = "violates-one-way-write-returned-nil-without-any-fault-but-the-body-never-reached-the-peer's-application"
+				default:
+					result = "ok"
+				}
+			} else if err == nil && !strings.HasPrefix(result, "violates") {
 				body := readBody(resp)
 				exp := genBody(rseed, 0, c.rlen)
 				switch {
@@ -394,6 +433,12 @@ func TestC04Long(t *testing.T) {
 		{transport: "udp", method: "get", qlen: 0, rlen: n},
 		{transport: "tcp", maxA: 1152, maxB: 1152, method: "post", qlen: n, rlen: n - 16},
 		{transport: "tcp", maxA: 1152, maxB: 1152, method: "get", qlen: 0, rlen: n},
+	}
+	// one-way writes of three blocks, without and with a No-Response option (RFC 7967): the layer's own 2.31 must flow
+	for _, tr := range []string{"udp", "tcp"} {
+		for _, nr := range []byte{0, 2, 8, 16, 26} {
+			cases = append(cases, connCase{transport: tr, maxA: 1152, maxB: 1152, method: "write", qlen: 2*16 + 5, rlen: int(nr), nr: nr})
+		}
 	}
 	for i, c := range cases {
 		name := fmt.Sprintf("%s %s %d %d", c.transport, c.method, c.qlen, c.rlen)
